@@ -18,6 +18,9 @@ D2: refuses a value below `24 + longest queued segment`).
   honoured is refused and changes nothing;
 * hence, in every history of operations from `NewKCP`, with `SetMtu` interleaved anywhere, every packet the
   output callback receives is non-empty and no longer than the MTU in force at that moment, and nothing panics.
+
+All statements are at full strength for the core half (nothing is `_partial`); helper lemmas are in
+`Lemmas/KcpFlush.lean` (the flush accumulator) and `Lemmas/KcpMss.lean` (the other operations, histories).
 -/
 namespace KcpVerif.Props
 open KcpVerif KcpVerif.Gen KcpVerif.Kcp KcpVerif.Lemmas.KcpFlush KcpVerif.Lemmas.KcpMss
